@@ -77,18 +77,18 @@ func (w *vWorld) doOp(op int) error {
 // BOUND: 4 pool topologies (3-4 IPs, 1-2 pools, shared pod subnet, shared node subnet, /32 node subnet, two-range pool); pre-state: any subset of IPs allocated with symbolic owner key (5 keys), policy 0..2, uid (3), node (3); one operation with symbolic arguments; at most one API call fails cleanly at a symbolic position 1..8
 // ASSUME: C05: labels and timestamps are not part of "agree"
 func VerifC05_q_stepAgree() {
-	w := vNewWorld(nondetChoice(vNumTopologies))
+	w := vNewWorld(nondetChoice(VNumTopologies))
 	w.symbolicStore(false)
 	if err := w.configure(); err != nil {
 		return
 	}
 	verifAssume(w.agree()) // memory := real ConfigurePool(store); assumed as well in case ConfigurePool is what changed
 	op := nondetChoice(vNumOps)
-	w.store.faultAt = nondetInt(0, 8)
+	w.store.FaultAt = nondetInt(0, 8)
 	_ = w.doOp(op)
 	verifReach("op-returned")
 	verifAssert("C05/agree", w.agree(), "memory and store disagree after an operation")
-	w.store.faultAt = 0
+	w.store.FaultAt = 0
 	before := w.snapshot()
 	if err := w.restart(); err != nil {
 		return
@@ -98,13 +98,13 @@ func VerifC05_q_stepAgree() {
 
 // BOUND: same pre-states; ConfigurePool (start-up) itself: the table it builds from any store agrees with that store, with one clean fault at a symbolic position
 func VerifC05_q_configureAgree() {
-	w := vNewWorld(nondetChoice(vNumTopologies))
+	w := vNewWorld(nondetChoice(VNumTopologies))
 	w.symbolicStore(true)
-	w.store.faultAt = nondetInt(0, 3)
+	w.store.FaultAt = nondetInt(0, 3)
 	err := w.configure()
 	verifReach("configured")
 	if err != nil {
-		verifAssert("C05/configure-error-only-on-fault", w.store.faulted, "ConfigurePool failed without an API failure")
+		verifAssert("C05/configure-error-only-on-fault", w.store.Faulted, "ConfigurePool failed without an API failure")
 		return
 	}
 	verifAssert("C05/configure-agree", w.agree(), "ConfigurePool built a table that disagrees with the store")
